@@ -147,7 +147,11 @@ def sc_records(tag, j, g, rng):
     S.add_nodes_from([g.node(n) for n in j["nodes"]])
     with warnings.catch_warnings():
         warnings.simplefilter("ignore")
-        S.add_simplices_from([[g.node(n) for n in m] for m in j["e2n"] if m])
+        # one call per simplex: the bulk formats are told apart by looking into the first item, which is
+        # ambiguous when the labels are iterables themselves
+        for m in j["e2n"]:
+            if m:
+                S.add_simplex([g.node(n) for n in m])
     src, sanom = hg.proj(S, g)
     for k in range(0, 3) if src["edges"] else ():
         r, res = _do(lambda: xgi.k_skeleton(S, k))
@@ -165,7 +169,8 @@ def _worker(args):
     out = []
     for k, j in enumerate(states):
         rng = random.Random(seed_ * 104729 + base + k)
-        g = Gamma(*nets.FAMS[(base + k) % len(nets.FAMS)])
+        # every fourth shape with labels that are themselves iterables (lattice coordinates)
+        g = Gamma(*(nets.FAMS + [("tuple", "int")])[(base + k) % (len(nets.FAMS) + 1)])
         out += records_for(f"s{base + k}", j, g, rng, tier)
         out += sc_records(f"s{base + k}sc", j, g, rng)
     return out
